@@ -1,9 +1,9 @@
 (* C39 — behaviour is identical across build configurations: wherever two preprocessor /
    feature-macro variants of a helper are both modelled, they are proved to agree.  Each theorem
    has exactly the statement of the proof-level lemma it names (readable statements: Prop/C04.v,
-   C05.v, C12.v, C26.v).  Everything else is covered only by the configuration-matrix run. *)
+   C05.v, C12.v, C19.v, C26.v).  Everything else is covered only by the configuration-matrix run. *)
 From Coq Require Import ZArith List Bool.
-From CyVerif Require Proof.P_Overflow Proof.P_CIntConv Proof.P_GlobalCache Proof.P_LZSS Proof.P_CMath.
+From CyVerif Require Proof.P_Overflow Proof.P_CIntConv Proof.P_GlobalCache Proof.P_LZSS Proof.P_CMath Proof.P_CmpFloat.
 
 (* Overflow.c: the __builtin_*_overflow branch and the portable arithmetic branch of every
    checking helper return the same value and the same overflow bit *)
@@ -29,6 +29,29 @@ Theorem C39_div_helper_variants : ltac:(let t := type of @P_CMath.div_int_floor 
 Proof. exact @P_CMath.div_int_floor. Qed.
 Print Assumptions C39_div_helper_variants.
 
+(* Optimize.c, PyObjectCompare: with CYTHON_USE_PYLONG_INTERNALS on (digits and lv_tag / ob_size read
+   directly) or off (PyLong_AsLong[Long]AndOverflow + rich comparison) the comparison helpers return the
+   same answer, for all six operators: float-int and int-float for every double (nan, infinities, every
+   finite dyadic rational) and every well-formed int; int-int for every pair of well-formed ints *)
+Theorem C39_pyobject_compare_float_int_variants_agree : ltac:(let t := type of @P_CmpFloat.floatint_variants_agree in exact t).
+Proof. exact @P_CmpFloat.floatint_variants_agree. Qed.
+Print Assumptions C39_pyobject_compare_float_int_variants_agree.
+
+Theorem C39_pyobject_compare_int_float_variants_agree : ltac:(let t := type of @P_CmpFloat.intfloat_variants_agree in exact t).
+Proof. exact @P_CmpFloat.intfloat_variants_agree. Qed.
+Print Assumptions C39_pyobject_compare_int_float_variants_agree.
+
+Theorem C39_pyobject_compare_int_int_variants_agree : ltac:(let t := type of @P_CmpFloat.intint_variants_agree in exact t).
+Proof. exact @P_CmpFloat.intint_variants_agree. Qed.
+Print Assumptions C39_pyobject_compare_int_int_variants_agree.
+
+(* the two configurations that are run (default, -DCYTHON_USE_PYLONG_INTERNALS=0) satisfy the hypotheses *)
+Theorem C39_pyobject_compare_configs :
+  P_CmpFloat.fcfg_ok M_CmpFloat.f_lp64_312 /\ P_CmpFloat.fcfg_ok M_CmpFloat.f_lp64_noint /\
+  M_CmpInt.i_sh (M_CmpFloat.f_i M_CmpFloat.f_lp64_312) = M_CmpInt.i_sh (M_CmpFloat.f_i M_CmpFloat.f_lp64_noint).
+Proof. exact (conj P_CmpFloat.fcfg_ok_lp64_312 (conj P_CmpFloat.fcfg_ok_lp64_noint eq_refl)). Qed.
+Print Assumptions C39_pyobject_compare_configs.
+
 (* string-table compression on (lzss) or off: the module sees the same bytes *)
 Theorem C39_lzss_compression_neutral : ltac:(let t := type of @P_LZSS.roundtrip in exact t).
 Proof. exact @P_LZSS.roundtrip. Qed.
@@ -36,3 +59,12 @@ Print Assumptions C39_lzss_compression_neutral.
 
 Example C39_nonvacuous : M_CMath.div_int 32 true true (-7) 2 = M_CMath.div_int 32 true false (-7) 2.
 Proof. vm_compute. reflexivity. Qed.
+
+(* -1.5 < -(2**40): the two variants take different routes (same-sign shortcut / comparison as doubles)
+   and agree *)
+Example C39_pyobject_compare_nonvacuous :
+  let b := PyLong.of_Z 30 (- 2 ^ 40) in let f := M_CmpFloat.DFin (-3) 1 in
+  M_CmpFloat.cmp_floatint M_CmpFloat.f_lp64_312 M_CmpFloat.fop M_CmpInt.OpLt f b = Some false /\
+  M_CmpFloat.cmp_floatint M_CmpFloat.f_lp64_noint M_CmpFloat.fop M_CmpInt.OpLt f b = Some false /\
+  M_CmpFloat.fbranch M_CmpFloat.f_lp64_312 false f b = 4%Z /\ M_CmpFloat.fbranch M_CmpFloat.f_lp64_noint false f b = 7%Z.
+Proof. vm_compute. repeat split. Qed.
